@@ -57,6 +57,38 @@ def _check_header(rep, rule, site, word, path, lensym):
     )
 
 
+def rule_stateless(repo, rep, mod):
+    from ..astutil import call_name
+
+    # g: the payload builder keeps no state between calls
+    rep.clause("C17-g", "driver_actions keeps no module-level mutable state: the payload depends only on the (stream, arch) of the call")
+    mut = {}
+    for st in mod.tree.body:
+        if isinstance(st, (ast.Assign, ast.AnnAssign)):
+            tg = st.targets[0] if isinstance(st, ast.Assign) else st.target
+            v = st.value
+            if isinstance(tg, ast.Name) and v is not None and (isinstance(v, (ast.Dict, ast.List, ast.Set, ast.DictComp, ast.ListComp, ast.SetComp)) or
+                                                             (isinstance(v, ast.Call) and call_name(v) in ("dict", "list", "set", "defaultdict", "collections.defaultdict", "OrderedDict"))):
+                mut[tg.id] = st
+    n_fn = 0
+    for q, fn in mod.functions.items():
+        n_fn += 1
+        bad = []
+        for n_ in ast.walk(fn):
+            if isinstance(n_, ast.Global):
+                bad.append(f"global {', '.join(n_.names)}")
+            if isinstance(n_, (ast.Subscript, ast.Attribute)) and isinstance(n_.ctx, (ast.Store, ast.Del)) and isinstance(n_.value, ast.Name) and n_.value.id in mut:
+                bad.append(norm(n_))
+            if isinstance(n_, ast.Call) and isinstance(n_.func, ast.Attribute) and isinstance(n_.func.value, ast.Name) and n_.func.value.id in mut and \
+                    n_.func.attr in ("append", "extend", "update", "setdefault", "add", "pop", "clear", "insert", "remove", "popitem", "__setitem__"):
+                bad.append(norm(n_)[:60])
+            if isinstance(n_, ast.FunctionDef) and any("cache" in norm(d) for d in n_.decorator_list):
+                bad.append(f"memoised: @{norm(n_.decorator_list[0])}")
+        rep.check(not bad, "C17-g", f"{SITE}:{q}", "writes no module-level container, declares no global, is not memoised", "; ".join(bad) + ": a later payload can reuse words computed for another accelerator")
+    rep.floor("C17-g", 8)
+
+
+
 def run(repo, rep):
     mod = repo.mod("driver_actions")
     rep.clause("C17-a", "length field masks/shifts, 24-bit guard and tag layout are mutually consistent on every path of create_driver_payload")
@@ -67,6 +99,7 @@ def run(repo, rep):
     rep.assume("struct.pack and list.append/extend behave as documented; Python asserts are enabled")
     rep.assume("driver action ids (1,2,5), the COP1 magic and the reserved<<16|length decoding are frozen from the Ethos-U core driver ABI")
 
+    rule_stateless(repo, rep, mod)
     externs = {}
     it = Interp(repo, mod, externs)
 
@@ -278,6 +311,33 @@ def run(repo, rep):
     rep.check(ok, "C17-d", "ethosu/vela/npu_serialisation.py:serialise_npu_subgraph_into_tensors",
               "command-stream tensor built from create_driver_payload(sg.register_command_stream, arch)",
               "payload builder call not found or argument changed")
+
+    # ---------------- f: the tensor written to the output model is the payload, byte for byte
+    rep.clause("C17-f", "the command-stream tensor of the output model holds exactly the payload bytes: size = len(payload), values = the whole payload buffer (no padding, no partial copy)")
+    site_f = "ethosu/vela/npu_serialisation.py:serialise_npu_subgraph_into_tensors"
+    from ..astutil import call_name, single_assignments
+    from ..exprnorm import linear
+
+    sa = single_assignments(f)
+    pay = [k for k, v in sa.items() if isinstance(v, ast.Call) and (call_name(v) or "").endswith("create_driver_payload")]
+    if len(pay) != 1:
+        raise AnalysisError("payload variable of serialise_npu_subgraph_into_tensors not found")
+    pay = pay[0]
+    mk = [s_ for s_ in ast.walk(f) if isinstance(s_, ast.Assign) and norm(s_.targets[0]) == "sg.command_stream_tensor" and call_name(s_.value) == "make_memory_tensor"]
+    if len(mk) != 1 or len(mk[0].value.args) < 4:
+        raise AnalysisError("creation of sg.command_stream_tensor not recognised")
+    size = mk[0].value.args[3]
+    while isinstance(size, ast.Name) and size.id in sa:
+        size = sa[size.id]
+    rep.check(linear(size) == {f"len({pay})": 1}, "C17-f", site_f, f"tensor size is len({pay})", f"size is `{norm(size)}`: the tensor is longer or shorter than the payload, so words follow (or are cut from) what the CmdStream action declares")
+    vals = [s_ for s_ in ast.walk(f) if isinstance(s_, (ast.Assign, ast.AugAssign)) and "command_stream_tensor.values" in norm(s_.targets[0] if isinstance(s_, ast.Assign) else s_.target)]
+    ok = len(vals) == 1 and isinstance(vals[0], ast.Assign) and norm(vals[0].targets[0]) == "sg.command_stream_tensor.values"
+    if ok:
+        v = vals[0].value
+        ok = isinstance(v, ast.Call) and call_name(v) in ("np.frombuffer", "numpy.frombuffer", "np.array", "np.asarray") and v.args and norm(v.args[0]) == pay and \
+            all(k.arg == "dtype" and norm(k.value) in ("np.uint8", "numpy.uint8") for k in v.keywords) and len(v.args) == 1
+    rep.check(ok, "C17-f", site_f, f"values = the whole `{pay}` buffer viewed as uint8", "; ".join(norm(x) for x in vals) or "no assignment")
+    rep.floor("C17-f", 2)
 
 
 def _is_u65(p):
